@@ -224,18 +224,18 @@ class C04(Prop):
     bits = {4: "a modelled lint reported code on which its documented condition, literals judged by value, is false",
             8: "a modelled lint did not report its canonical pattern in some enclosing context",
             16: "an unmodelled lint's verdict on a positive / negative template differs from the documented one"}
-    rule = ("(1) divide_by_zero / compare_nan / suspicious_reverse_loop / empty_if / empty_loop / unbalanced_assignments: documented "
+    rule = ("(1) divide_by_zero / compare_nan / suspicious_reverse_loop / empty_if / empty_loop / unbalanced_assignments / mixed_table / "
+            "duplicate_keys / parenthese_conditions / constant_table_comparison / type_check_inside_call: documented "
             "patterns and near misses with zeros and loop ends in every spelling (decimal, float, exponent, hex, leading zeros) and "
             "operands from a small expression grammar, each embedded in one of 8 enclosing contexts, optionally after a generated "
             "program; whole tree dumped, diagnostics counted per code; (2) mismatched_arg_count: 7 parameter lists x 0-4 arguments of 8 "
-            "kinds (calls and `...` in every position) + string/table call sugar; (3) 44 positive/negative templates of the 10 lints "
+            "kinds (calls and `...` in every position) + string/table call sugar; (3) 44 positive/negative templates (all 10 lints outside the first group, 5 of which are now also modelled) "
             "that are not modelled, in the same contexts; non-trivial = all; distinct = distinct sources")
     trusted_base = [
-        "modelled: the seven lints named above over the dumped syntax tree (Lints/Closed.v); nodes_* enumerates what full_moon's "
+        "modelled: the twelve lints named above over the dumped syntax tree (Lints/Closed.v); nodes_* enumerates what full_moon's "
         "Visitor reaches; diagnostics are compared by count per code, not by range",
-        "the other ten lints of the property (duplicate_keys, mixed_table, if_same_then_else, ifs_same_cond, parenthese_conditions, "
-        "almost_swapped, constant_table_comparison, type_check_inside_call, bad_string_escape, multiple_statements) are tested "
-        "against template verdicts only: no theorem covers them",
+        "the other five lints of the property (if_same_then_else, ifs_same_cond, almost_swapped, bad_string_escape, "
+        "multiple_statements) are tested against template verdicts only: no theorem covers them",
         "f32 rounding is not modelled: loop ends within 2^-24 of 1 are not generated",
     ]
     assumptions = ["empty_if / empty_loop run with comments_count = false (the default)"]
